@@ -174,6 +174,26 @@ Proof.
 Qed.
 Print Assumptions C04_group_is_component.
 
+(* 8b. the group does not depend on which of its ports the walk starts from: a reference handed out
+       earlier for a port that is (still or again) tied into a live group only re-discovers that group *)
+Lemma C04_reach_sym ops a b : reach (run ops) a b -> reach (run ops) b a.
+Proof.
+  induction 1 as [|b c R IH A]; [constructor|].
+  apply (reach_trans _ c b a); [|exact IH].
+  eapply reach_step; [constructor|]. destruct A as [A|A]; [right|left]; exact A.
+Qed.
+
+Theorem C04_group_seed_independent ops f1 f2 q r g1 g2 :
+  follow (run ops) (fun _ => true) f1 q [] = Some g1 -> follow (run ops) (fun _ => true) f2 r [] = Some g2 ->
+  reach (run ops) q r -> forall x, In (GRef x) g1 <-> In (GRef x) g2.
+Proof.
+  intros H1 H2 R x. rewrite (C04_group_is_component ops f1 q g1 x H1), (C04_group_is_component ops f2 r g2 x H2).
+  split; intros H.
+  - eapply reach_trans; [apply C04_reach_sym; exact R | exact H].
+  - eapply reach_trans; [exact R | exact H].
+Qed.
+Print Assumptions C04_group_seed_independent.
+
 (* 9. the walk always terminates within `number of ports + 1` nested calls: fuel exhaustion is unreachable *)
 Theorem C04_groups_total ops inmod q g0 : In q (ports_of (run ops)) ->
   exists g, follow (run ops) inmod (S (List.length (ports_of (run ops)))) q g0 = Some g.
